@@ -13,9 +13,26 @@ MCTagMaps == {[id |-> "swap12", f |-> [t1 |-> "t2", t2 |-> "t1", t3 |-> "t3"]],
 
 \* c1 is the top cell; c3 is a shared sub-cell; c4 is a replacement candidate carrying c1's
 \* name; r3 is a raw cell from a second file carrying r1's name.
-InitName == [c1 |-> "n1", c2 |-> "n2", c3 |-> "n3", c4 |-> "n1", c5 |-> "n3b",
-             r1 |-> "q1", r2 |-> "q2", r3 |-> "q1", r4 |-> "q4"]
-InitRefs == [c1 |-> <<Ref("cell", "c2"), Ref("cell", "c3"), Ref("name", "n3"),
+\* Shape 3 is library 2 of a pair that shares its cells with library 1 (copy_from(lib, false)) after
+\* library 1 replaced cell n3 by the raw cell r3 of the same name and raw cell q1 by the cell c5 of
+\* the same name: c1 and c2 hold pointer references to those out-of-library objects, which are stale
+\* designations of this library's c3 and r1 (LibGraph!StaleFor).  c4 is a free-standing replacement.
+CONSTANT Shape
+InitName == IF Shape = 3
+            THEN [c1 |-> "n1", c2 |-> "n2", c3 |-> "n3", c4 |-> "n4", c5 |-> "q1",
+                  r1 |-> "q1", r2 |-> "q2", r3 |-> "n3", r4 |-> "q4"]
+            ELSE [c1 |-> "n1", c2 |-> "n2", c3 |-> "n3", c4 |-> "n1", c5 |-> "n3b",
+                  r1 |-> "q1", r2 |-> "q2", r3 |-> "q1", r4 |-> "q4"]
+InitRefs == IF Shape = 3
+            THEN [c1 |-> <<Ref("cell", "c2"), Ref("cell", "c3"), Ref("name", "n3"),
+                           Ref("raw", "r1"), Ref("raw", "r3"), Ref("raw", "r3")>>,
+                  c2 |-> <<Ref("cell", "c3"), Ref("name", "q1"), Ref("raw", "r2"), Ref("cell", "c5"),
+                           Ref("raw", "r3")>>,
+                  c3 |-> <<>>,
+                  c4 |-> <<Ref("name", "n2")>>,
+                  c5 |-> <<Ref("raw", "r2")>>]
+            ELSE
+            [c1 |-> <<Ref("cell", "c2"), Ref("cell", "c3"), Ref("name", "n3"),
                       Ref("raw", "r1"), Ref("name", "zz")>>,
              c2 |-> <<Ref("cell", "c3"), Ref("name", "q2"), Ref("raw", "r2"), Ref("name", "n3b")>>,
              c3 |-> <<>>,
@@ -29,8 +46,7 @@ InitRawDeps == [r1 |-> {"r2"}, r2 |-> {"r4"}, r3 |-> {}, r4 |-> {}]
 RawFile == [r1 |-> 1, r2 |-> 1, r3 |-> 2, r4 |-> 1]
 \* Shape 1: three member cells, two raw cells.  Shape 2: more raw cells than cells (a raw cell's
 \* position in the raw-cell list is not a position in the cell list).
-CONSTANT Shape
-InitMembers == IF Shape = 1 THEN {"c1", "c2", "c3"} ELSE {"c3"}
+InitMembers == IF Shape \in {1, 3} THEN {"c1", "c2", "c3"} ELSE {"c3"}
 InitRMembers == {"r1", "r2"}
 
 Init == /\ members = InitMembers /\ rmembers = InitRMembers
